@@ -12,16 +12,23 @@ Proof.
   f_equal. lia.
 Qed.
 
-Lemma lcg_next_eq v : lcg_next v = ((rnd_factor * v) mod two32) mod rnd_p.
-Proof. unfold lcg_next. now rewrite to_unsigned_wrap. Qed.
+Lemma lcg_raw_eq v : lcg_raw v = ((rnd_factor * v) mod two32) mod rnd_p.
+Proof. unfold lcg_raw. now rewrite to_unsigned_wrap. Qed.
 
-Lemma lcg_range v : 0 <= lcg_next v < rnd_p.
-Proof. rewrite lcg_next_eq. apply Z.mod_pos_bound. reflexivity. Qed.
+Lemma lcg_raw_range v : 0 <= lcg_raw v < rnd_p.
+Proof. rewrite lcg_raw_eq. apply Z.mod_pos_bound. reflexivity. Qed.
+
+(* the repaired step never leaves [1,p) - whatever the state it starts from *)
+Lemma lcg_range v : 0 < lcg_next v < rnd_p.
+Proof.
+  unfold lcg_next. pose proof (lcg_raw_range v) as R.
+  destruct (lcg_raw v =? 0) eqn:E; [unfold rnd_p; lia|]. apply Z.eqb_neq in E. lia.
+Qed.
 
 (* below 2^32/105 the product does not wrap *)
-Lemma lcg_nowrap v : 0 <= v <= 40904450 -> lcg_next v = (rnd_factor * v) mod rnd_p.
+Lemma lcg_nowrap v : 0 <= v <= 40904450 -> lcg_raw v = (rnd_factor * v) mod rnd_p.
 Proof.
-  intros H. rewrite lcg_next_eq. f_equal. apply Z.mod_small.
+  intros H. rewrite lcg_raw_eq. f_equal. apply Z.mod_small.
   unfold rnd_factor, two32. lia.
 Qed.
 
@@ -37,7 +44,7 @@ Proof.
   assert (k = 0) by lia. subst k. reflexivity.
 Qed.
 
-Lemma lcg_nowrap_zero v : 0 <= v <= 40904450 -> (lcg_next v = 0 <-> v mod rnd_p = 0).
+Lemma lcg_nowrap_zero v : 0 <= v <= 40904450 -> (lcg_raw v = 0 <-> v mod rnd_p = 0).
 Proof.
   intros H. rewrite (lcg_nowrap v H). split; intro E.
   - apply Z.mod_divide in E; [|discriminate]. apply p_divides_factor_mul in E.
@@ -46,19 +53,19 @@ Proof.
     apply Z.divide_mul_r. exact E.
 Qed.
 
-Lemma lcg_nonzero v : 0 < v < rnd_p -> 0 < lcg_next v < rnd_p.
+(* on [1,p) the repair is never triggered: the step is the plain multiplication by 105 modulo p *)
+Lemma lcg_next_plain v : 0 < v < rnd_p -> lcg_next v = (rnd_factor * v) mod rnd_p /\ lcg_raw v <> 0.
 Proof.
-  intros H. pose proof (lcg_range v) as R.
-  assert (N : lcg_next v <> 0).
-  { intro E. assert (B : 0 <= v <= 40904450) by (unfold rnd_p in H; lia).
-    apply (lcg_nowrap_zero v B) in E. rewrite Z.mod_small in E; lia. }
-  lia.
+  intros H. assert (B : 0 <= v <= 40904450) by (unfold rnd_p in H; lia).
+  assert (N : lcg_raw v <> 0).
+  { intro E. apply (lcg_nowrap_zero v B) in E. rewrite Z.mod_small in E; lia. }
+  split; [|exact N]. unfold lcg_next. apply Z.eqb_neq in N. rewrite N. apply lcg_nowrap. exact B.
 Qed.
 
-Lemma lcg_inj v w : 0 <= v < rnd_p -> 0 <= w < rnd_p -> lcg_next v = lcg_next w -> v = w.
+Lemma lcg_inj v w : 0 < v < rnd_p -> 0 < w < rnd_p -> lcg_next v = lcg_next w -> v = w.
 Proof.
   intros Hv Hw E.
-  rewrite (lcg_nowrap v), (lcg_nowrap w) in E by (unfold rnd_p in *; lia).
+  rewrite (proj1 (lcg_next_plain v Hv)), (proj1 (lcg_next_plain w Hw)) in E.
   assert (D : (rnd_p | rnd_factor * (v - w))).
   { apply Z.mod_divide; [discriminate|].
     replace (rnd_factor * (v - w)) with (rnd_factor * v - rnd_factor * w) by ring.
@@ -73,17 +80,24 @@ Fixpoint lcg_iter (n : nat) (v : Z) : Z :=
 Lemma lcg_iter_S n v : lcg_iter (S n) v = lcg_next (lcg_iter n v).
 Proof. revert v. induction n; intro v; simpl; [reflexivity|]. rewrite <- IHn. reflexivity. Qed.
 
-Lemma lcg_iter_range n v : 0 < v < rnd_p -> 0 < lcg_iter n v < rnd_p.
-Proof. revert v. induction n; intros v H; simpl; [exact H|]. apply IHn. apply lcg_nonzero. exact H. Qed.
+(* after at least one step the state is in [1,p), from ANY starting value *)
+Lemma lcg_iter_range n v : 0 < lcg_iter (S n) v < rnd_p.
+Proof. rewrite lcg_iter_S. apply lcg_range. Qed.
 
-Lemma lcg_iter_zero n : lcg_iter n 0 = 0.
-Proof. induction n; simpl; [reflexivity|]. exact IHn. Qed.
+Lemma lcg_iter_range0 n v : 0 < v < rnd_p -> 0 < lcg_iter n v < rnd_p.
+Proof. destruct n; [trivial| intros _; apply lcg_iter_range]. Qed.
 
-Lemma lcg_iter_inj n v w : 0 <= v < rnd_p -> 0 <= w < rnd_p -> lcg_iter n v = lcg_iter n w -> v = w.
+Lemma lcg_iter_inj n v w : 0 < v < rnd_p -> 0 < w < rnd_p -> lcg_iter n v = lcg_iter n w -> v = w.
 Proof.
   revert v w. induction n; intros v w Hv Hw E; simpl in E; [exact E|].
   apply IHn in E; try apply lcg_range. apply lcg_inj; assumption.
 Qed.
+
+(* the step as it was before the repair: 0 is a fixed point *)
+Fixpoint lcg_iter_prefix (n : nat) (v : Z) : Z :=
+  match n with O => v | S k => lcg_iter_prefix k (lcg_next_prefix v) end.
+Lemma lcg_prefix_frozen n : lcg_iter_prefix n 0 = 0.
+Proof. induction n; simpl; [reflexivity|]. exact IHn. Qed.
 
 (* ---------------------------------------------------------------- generator state machine *)
 Section RNG.
@@ -200,31 +214,21 @@ Proof.
   intros H. unfold in_open01, q_of_state, Qlt. simpl. unfold rnd_p in *. lia.
 Qed.
 
-Lemma uniform_range st s n : old_style st = true -> 0 < s -> lcg_next s <> 0 ->
+Lemma uniform_range st s n : old_style st = true -> 0 < s ->
   Forall in_open01 (stream n (set_seed s st)).
 Proof.
-  intros Ho Hs Hn. destruct (set_seed_rv s st Hs) as [E1 E2].
+  intros Ho Hs. destruct (set_seed_rv s st Hs) as [E1 E2].
   rewrite stream_old by (rewrite E2; exact Ho). rewrite E1.
   apply Forall_forall. intros u Hu. apply in_map_iff in Hu. destruct Hu as [k [Hk _]]. subst u.
-  apply q_of_state_open. simpl. apply lcg_iter_range.
-  pose proof (lcg_range s). lia.
+  apply q_of_state_open. apply lcg_iter_range.
 Qed.
 
-Lemma uniform_range_small st s n : old_style st = true -> 0 < s <= 40904450 -> s mod rnd_p <> 0 ->
-  Forall in_open01 (stream n (set_seed s st)).
+(* without any seeding: from whatever state the generator is in *)
+Lemma uniform_range_any st n : old_style st = true -> Forall in_open01 (stream n st).
 Proof.
-  intros Ho Hs Hm. apply uniform_range; [exact Ho|lia|].
-  intro E. assert (B : 0 <= s <= 40904450) by lia.
-  apply (lcg_nowrap_zero s B) in E. contradiction.
-Qed.
-
-Lemma degenerate_seed st s n : old_style st = true -> 0 < s -> lcg_next s = 0 ->
-  Forall (fun u => u == 0)%Q (stream n (set_seed s st)).
-Proof.
-  intros Ho Hs Hn. destruct (set_seed_rv s st Hs) as [E1 E2].
-  rewrite stream_old by (rewrite E2; exact Ho). rewrite E1.
+  intros Ho. rewrite stream_old by exact Ho.
   apply Forall_forall. intros u Hu. apply in_map_iff in Hu. destruct Hu as [k [Hk _]]. subst u.
-  simpl. rewrite Hn, lcg_iter_zero. reflexivity.
+  apply q_of_state_open. apply lcg_iter_range.
 Qed.
 
 Lemma seeds_differ st s1 s2 n : old_style st = true ->
